@@ -13,8 +13,12 @@ package flyt
 
 //@ spec func cfgRetries(n Node) int
 //@ spec func cfgWait(n Node) int
-//@ spec func budget(n Node) int = implements(n, RetryableNode) ? cfgRetries(n) : 1
-//@ spec func waitOf(n Node) int = implements(n, RetryableNode) ? cfgWait(n) : 0
+// A node "exposes retry settings" / "has a fallback" when its type has the methods, however the package
+// chooses to declare its interfaces.
+//@ spec func isRetryable(n Node) bool = hasMethod(n, GetMaxRetries) && hasMethod(n, GetWait)
+//@ spec func hasFallback(n Node) bool = hasMethod(n, ExecFallback)
+//@ spec func budget(n Node) int = isRetryable(n) ? cfgRetries(n) : 1
+//@ spec func waitOf(n Node) int = isRetryable(n) ? cfgWait(n) : 0
 //@ spec func isBatch(n Node) bool = isType(n, *BatchNode) || isType(n, *BatchNodeBuilder)
 //@ spec func norm(a Action) Action = a == "" ? DefaultAction : a
 
@@ -49,8 +53,8 @@ package flyt
 //@   ghost postAct Action = ""; postErr error = nil; lastEnd int = now
 //@   ghost nBatch int = 0; bAct Action = ""; bErr error = nil
 //@   on call runBatch(c, n, s) returns (a, e)
-//@     requires [C04,C06,C18] nBatch == 0 && ph == 0 && c == ctx && s == shared && isBatch(node)
-//@     requires [C04,C06,C18] n == node || (isType(node, *BatchNodeBuilder) && n == box(node.(*BatchNodeBuilder).BatchNode, *BatchNode))
+//@     requires [C04,C06,C10,C18] nBatch == 0 && ph == 0 && c == ctx && s == shared && isBatch(node)
+//@     requires [C04,C06,C10,C18] n == node || (isType(node, *BatchNodeBuilder) && n == box(node.(*BatchNodeBuilder).BatchNode, *BatchNode))
 //@     effect nBatch = 1; bAct = a; bErr = e
 //@   on call Node.Prep(n, c, s) returns (v, e)
 //@     requires [C01] n == node && c == ctx && s == shared && ph == 0
@@ -77,12 +81,12 @@ package flyt
 //@   loop 1 candidate !cancelled
 //@   loop 1 candidate ph == 1 ==> !cancelled
 //@   loop 1 decreases [C02] budget(node) - nExec
-//@   ensures [C04,C06,C18] isBatch(node) ==> nBatch == 1 && act == bAct && err == bErr && ph == 0
-//@   ensures [C01,C18] !isBatch(node) ==> (err == nil && act != "") || (err != nil && act == "")
+//@   ensures [C04,C06,C10,C18] isBatch(node) ==> nBatch == 1 && act == bAct && err == bErr && ph == 0
+//@   ensures [C01,C10,C18] !isBatch(node) ==> (err == nil && act != "") || (err != nil && act == "")
 //@   ensures [C01] !isBatch(node) ==> (err == nil <==> ph == 4 && postErr == nil)
 //@   ensures [C01,C18] !isBatch(node) && err == nil ==> act == norm(postAct)
 //@   ensures [C01] !isBatch(node) ==> !((ph == 2 || ph == 3) && lastErr == nil)
-//@   ensures [C02] !isBatch(node) && ph >= 2 && !sawCancel ==> (nFb == 1 <==> implements(node, FallbackNode) && attErr != nil && nExec == budget(node))
+//@   ensures [C02] !isBatch(node) && ph >= 2 && !sawCancel ==> (nFb == 1 <==> hasFallback(node) && attErr != nil && nExec == budget(node))
 //@   ensures [C02] !isBatch(node) && ph >= 2 && !sawCancel && attErr == nil ==> nFb == 0 && lastErr == nil
 //@   ensures [C04] !isBatch(node) && perr != nil ==> err != nil && Is(err, perr) && nExec == 0 && nPost == 0
 //@   ensures [C04] !isBatch(node) && (ph == 2 || ph == 3) && !sawCancel ==> err != nil && Is(err, lastErr) && nPost == 0
@@ -138,6 +142,7 @@ package flyt
 //@     requires [C05] !cancelled
 //@     requires c == ctx
 //@     effect visits++; failed = e != nil; childErr = e; last = (e == nil ? a : last); cur = (e == nil ? nextNode(f, n, a) : cur)
+//@     assume flowRep(f)
 //@   loop 1 invariant !failed && !sawCancel && childErr == nil && visits >= 0 && okNode(cur)
 //@   loop 1 invariant [C05] cancelled@entry ==> callbacks == callbacks@entry && visits == 0
 //@   loop 1 invariant visits >= 1 || (cur == f.start && cur != nil)
@@ -862,7 +867,7 @@ package flyt
 //@   loop 1 invariant [C11] cancelled@entry ==> callbacks == callbacks@entry && nExec == 0
 //@   loop 1 candidate !cancelled
 //@   loop 1 decreases [C02] budget(node) - nExec
-//@   ensures [C02] !sawCancel ==> nExec >= 1 && nExec <= budget(node) && (nFb == 1 <==> implements(node, FallbackNode) && attErr != nil && nExec == budget(node))
+//@   ensures [C02] !sawCancel ==> nExec >= 1 && nExec <= budget(node) && (nFb == 1 <==> hasFallback(node) && attErr != nil && nExec == budget(node))
 //@   ensures [C02] !sawCancel && attErr == nil ==> nFb == 0
 //@   ensures [C07] !sawCancel ==> err == lastErr && res == (nFb == 0 && lastErr != nil ? nil : lastRes)
 //@   ensures [C11,C20] sawCancel ==> err != nil && Is(err, ctxErr(ctx))
@@ -955,7 +960,7 @@ package flyt
 //@   ensures [C04] perr != nil ==> err != nil && Is(err, perr) && nPost == 0 && ph == 1
 //@   ensures [C04] nPost == 1 && postErr != nil ==> err != nil && Is(err, postErr)
 //@   ensures [C04,C06] err == nil <==> nPost == 1 && postErr == nil
-//@   ensures [C18] (err == nil && act != "") || (err != nil && act == "")
+//@   ensures [C10,C18] (err == nil && act != "") || (err != nil && act == "")
 //@   ensures [C18] err == nil ==> act == norm(postAct)
 
 
@@ -1024,6 +1029,7 @@ package flyt
 
 //@ func (*WorkerPool).Wait(p) ()
 //@   requires p != nil
+//@   joins
 //@   ghost nWait int = 0
 //@   on call (*sync.WaitGroup).Wait(w)
 //@     requires [C12] w == p && nWait == 0
@@ -1061,7 +1067,7 @@ package flyt
 //@   requires node != nil && ctx != nil && len(results) == len(items) && sarr(results) != sarr(items) && concurrency <= 1073741824
 //@   havoc user
 //@   assigns contents(results)
-//@   ghost i int = 0; pool *WorkerPool = nil; waited bool = false; closedPool bool = false
+//@   ghost i int = 0; pool *WorkerPool = nil; waited bool = false; closedPool bool = false; settled [int]Result = zeroArr([int]Result)
 //@   on call NewWorkerPool(k) returns (p)
 //@     requires [C08] k == concurrency && pool == nil
 //@     effect pool = p
@@ -1074,7 +1080,7 @@ package flyt
 //@     effect i = i
 //@   on call (*WorkerPool).Wait(p)
 //@     requires [C06,C07,C09,C11] p == pool && i == len(items) && !waited
-//@     effect waited = true
+//@     effect waited = true; settled = elems(results)
 //@   on call (*WorkerPool).Close(p)
 //@     requires [C12] p == pool && waited && !closedPool && inDefers
 //@     effect closedPool = true
@@ -1085,6 +1091,8 @@ package flyt
 //@   loop 1 invariant pool.tasks != pool.done && pool.tasks != nil && pool.done != nil && allocated(pool.tasks) && allocated(pool.done)
 //@   loop 1 decreases [C06] len(items) - i
 //@   ensures [C06,C12] waited && closedPool
+// what the tasks settled (L3) is what the caller gets: nothing touches the slots after Wait
+//@   ensures [C06,C07,C09,C11,C17] elems(results) == settled
 //@   ensures [C06,C07,C09,C11] i == len(items)
 //@   ensures-by L3 [C06] forall j int :: 0 <= j && j < len(items) ==> items[j] == old(items[j])
 
